@@ -5,7 +5,7 @@ CONFIG = {
         "name": "logic", "pkg": "./data/transactions/logic/", "run": "^TestVerifC32$",
         "files": ["data/transactions/logic/zz_verif_c32_test.go"],
         "util": [("data/transactions/logic", "logic")],
-        "env": {"quick": {"VERIF_C32_N": 60}, "thorough": {"VERIF_C32_N": 1200, "VERIF_C32_EXTRA": 250000}},
+        "env": {"quick": {"VERIF_C32_N": 60}, "thorough": {"VERIF_C32_N": 1200, "VERIF_C32_EXTRA": 800000}},
         "timeout": {"quick": 900, "thorough": 3000},
     }],
     "rule": "53 opcodes (+ - * / % addw mulw divw divmodw exp expw sqrt shl shr bitlen < > <= >= && || == != ! | & ^ ~ itob btoi, "
